@@ -129,7 +129,7 @@ def r1(cx):
                 cx.check(len(rs) == 1 and len(ws) == 1 and rs != ws, "C18.R1", key, site,
                          "copy() reads from the %s side and writes to the %s side" % ("/".join(sorted(rs)), "/".join(sorted(ws))),
                          note_ok="%s -> %s" % ("/".join(sorted(rs)), "/".join(sorted(ws))))
-    cx.floor("C18.R1", "classified byte flows", nflows, 7)
+    cx.floor("C18.R1", "classified byte flows", nflows, 4)
 
 
 CONN_FIELDS = ("stream", "child", "reader", "writer", "tempdir")
@@ -338,7 +338,7 @@ def r6(cx):
             base = ref_chain(du, t.args[0].place.l)[-1]
             fl = {x.bb for x in body.calls("=flush") if ref_chain(du, x.args[0].place.l)[-1] == base}
             # Call::reply_* helpers flush themselves; here only raw writes are examined
-            good = bool(fl) and cfg.must_pass(t.target, sorted(blocking | okret), fl)
+            good = bool(fl) and cfg.must_pass_sens(t.target, sorted(blocking | okret), fl)
             cx.check(good, "C18.R6", "%s:%s:%s#%d:flushed-before-blocking" % (PKG, body.path, t.callee.name, i), "%s %s" % (t.sp, body.path),
                      "a path from this write reaches the next blocking read (or a successful return) without flushing the writer: with a buffered writer (stdout) bytes the bridge has already received stay unforwarded while it waits",
                      note_ok="flush on every path before the next read/return")
@@ -391,4 +391,4 @@ def r7_level(cx):
     if bad:
         cx.bad("C18.R7", key, "%s:%d %s" % (rel, bad[0][1], bad[0][0]), "descriptor registered with %s: after a wake-up that is answered by one read of at most one buffer, the bytes left in the socket are never reported again, so a message larger than the buffer is cut off" % bad[0][2])
     else:
-        cx.check(n >= 2 and vocab, "C18.R7", key, rel, "expected at least two Event::new registrations and the EPOLLET definition to be visible (found %d, %s)" % (n, vocab), note_ok="%d registrations, none edge-triggered/one-shot" % n)
+        cx.check(n >= 1 and vocab, "C18.R7", key, rel, "expected an Event::new registration and the EPOLLET definition to be visible (found %d, %s)" % (n, vocab), note_ok="%d registration site(s), none edge-triggered/one-shot" % n)
